@@ -26,12 +26,12 @@ EXHAUSTIVE = {}
 def BOUNDS(tier):
     return ('two-sided shapes: corner set + %s; flags {-twopl -stab} x {-pc}; criteria: none (soundness+completeness), maxsize, minsize '
             '(+ one other single criterion per shape for soundness); quotas symbolic >= 0 unbounded (no well-formedness assumed for soundness/completeness)'
-            % ('200 seeded random ns<=4,np<=3,nl<=3' if tier == 'quick' else '600 seeded random + exhaustive ns<=2,np<=2,nl<=2'))
+            % ('200 seeded random ns<=4,np<=3,nl<=3' if tier == 'quick' else '2000 seeded random + exhaustive ns<=2,np<=2,nl<=2'))
 
 
 def tasks(tier, seed):
     rng = random.Random(seed + 505)
-    shs = shapes.shape_set(tier, seed, twosided=True, quick_n=200, thorough_n=600)
+    shs = shapes.shape_set(tier, seed, twosided=True, quick_n=200, thorough_n=2000)
     if tier == 'thorough':
         seen = {s.shape_key() for s in shs}
         for dims in ((3, 2, 2, 2), (3, 2, 2, 1), (2, 2, 2, 2), (3, 1, 2, 2)):
